@@ -361,12 +361,20 @@ theorem SameProcs.foldl {α : Type} (f : WorkerSt → α → WorkerSt) (hf : ∀
   | [], w => SameProcs.refl w
   | a :: l, w => (hf w a).trans (SameProcs.foldl f hf l (f w a))
 
+theorem releaseDead_regs (x : Proc) : x.releaseDead.regs = x.regs := by
+  unfold Proc.releaseDead; split <;> rfl
+
+theorem SameProcs.release (w : WorkerSt) (cur : Pid) : SameProcs w (w.release cur) := by
+  unfold WorkerSt.release; split
+  · exact SameProcs.modProc w cur _ releaseDead_regs
+  · exact SameProcs.refl w
+
 theorem SameProcs.finish {w : WorkerSt} {cur : Pid} {x0 x : Proc} (hx : w.procs cur = some x0) (hr : x.regs = x0.regs)
     (ordQ : List Pid) : SameProcs w (w.finish cur x ordQ) := by
   unfold WorkerSt.finish
   refine SameProcs.trans (b := { w with procs := upd w.procs cur (some { x with result := some x.finalRes }) })
     (SameProcs.updProc (x' := { x with result := some x.finalRes }) hx hr rfl rfl) ?_
-  exact SameProcs.foldl _ (fun w' a => SameProcs.notifyResult w' a cur _) _ _
+  exact (SameProcs.foldl _ (fun w' a => SameProcs.notifyResult w' a cur _) _ _).trans (SameProcs.release _ cur)
 
 /-- Replacing worker `i` by a state with the same processes preserves the routing invariant. -/
 theorem RInv.setWk_same {s : Sys} (h : RInv s) (i : Wid) {w' : WorkerSt} (hs : SameProcs (s.wk i) w') :
@@ -659,9 +667,11 @@ theorem RInv.handleCmd {s : Sys} (h : RInv s) (R : Rules)
     simp only []
     split
     · rename_i x hx
-      exact { h.setWk_same i ((SameProcs.updProc (x' := { x with mailbox := x.mailbox ++ [m] }) hx rfl
-          (w' := { s.wk i with procs := upd (s.wk i).procs t (some { x with mailbox := x.mailbox ++ [m] }) }) rfl rfl).trans
-          (SameProcs.wakeSelecting _ t)) with }
+      split
+      · exact { h.setWk_same i (SameProcs.wakeSelecting _ t) with }
+      · exact { h.setWk_same i ((SameProcs.updProc (x' := { x with mailbox := x.mailbox ++ [m] }) hx rfl
+            (w' := { s.wk i with procs := upd (s.wk i).procs t (some { x with mailbox := x.mailbox ++ [m] }) }) rfl rfl).trans
+            (SameProcs.wakeSelecting _ t)) with }
     · exact { h.setWk_same i (SameProcs.wakeSelecting _ t) with }
   | queryAwait a ts =>
     obtain ⟨ha, hts⟩ := hc
